@@ -45,8 +45,8 @@ def v4_header(method="GET", path="/bkt/key", pairs=(), extra_headers=(), body=b"
     return rq
 
 
-def v4_presigned(method="GET", path="/bkt/key", pairs=(), expires=600, date_delta=0, secret=SK, ak=AK, mutate=None):
-    hs = [("host", "localhost")]
+def v4_presigned(method="GET", path="/bkt/key", pairs=(), expires=600, date_delta=0, secret=SK, ak=AK, mutate=None, extra_headers=()):
+    hs = [("host", "localhost")] + list(extra_headers)
     q = sigref.presign_v4(method, path, list(pairs), hs, ak, secret, now_amz(date_delta), expires)
     rq = {"method": method, "uri": sigref.uri_encode(path, False) + "?" + sigref.query_string(q), "headers": hdrs(hs)}
     rq["_pairs"] = q
